@@ -661,6 +661,10 @@ impl Server for GitSyncServer {
         parent_version_id: VersionId,
         history_segment: HistorySegment,
     ) -> Result<(AddVersionResult, SnapshotUrgency)> {
+        // The work tree may have been reset to the remote since `meta` was last read (snapshot
+        // calls do that), so decide on what is on disk, not on the copy in memory.
+        self.read_meta()?;
+
         // Accept any parent when the repo is empty (latest == NIL).
         // Otherwise check if parent matches latest. If it doesn't, reset_to_remote and recheck.
         // This clone may be behind the remote (even still empty), so "latest" is only trusted
